@@ -215,10 +215,15 @@ def c20_step(run):
     run.cov["rule"] = "spline fitter on random corridors of the router's class (bent paths are non-trivial); root finder on cubics/quadratics/linear polynomials built from chosen roots on a quarter grid"
     run.cov["spline_pieces_histogram"] = {str(k): sum(1 for s in d["splines"] if len(s.get("pieces") or []) == k) for k in range(0, 6)}
     shown = 0
+    vtx_listed = any(k["class"] == "vertex-crossing" for k in run.load_known())
+    vtx = [s for s in d["splines"] if s.get("problems") and s.get("only_containment") and s.get("through_vertices")]
     for s in d["splines"]:
-        if s.get("problems") and shown < 3:
+        if s.get("problems") and not (vtx_listed and s.get("only_containment") and s.get("through_vertices")) and shown < 3:
             shown += 1
             run.violation("the spline fitter breaks the property: " + "; ".join(s["problems"])[:300], {"kind": "spline", "property": "C20", "case": s}, True)
+    if vtx and vtx_listed:
+        run.known.append("property=C20 vertex-crossing: the fitter accepts a curve that leaves the corridor and comes back THROUGH corridor vertices (%d of %d fitted paths in this run, largest excursion %.1f units)"
+                         % (len(vtx), len(d["splines"]), max(s.get("max_excursion", 0) for s in vtx)))
     curves = d.get("curves") or []
     run.cov["evaluations"] += len(curves)
     run.cov["containment_test_cases"] = {"inside": sum(1 for c in curves if c["expected"] == "inside"), "outside": sum(1 for c in curves if c["expected"] == "outside")}
